@@ -3,5 +3,6 @@ CONSTANTS Agents = {"a1"}
  NSteps = 2
  AllowCrash = TRUE
  FixStatus = TRUE
+ ExclusiveBind = TRUE
 INVARIANTS C08_CutShort C08_NoError
 CHECK_DEADLOCK FALSE
